@@ -176,6 +176,39 @@ fn positional() -> Vec<Vec<u8>> {
             v.push(nomap.into_bytes());
         }
     }
+    // a single line-mapped method whose line straddles a multiple of B at every cut position (an implementation
+    // that scans the file in blocks of B bytes would cut it in two), for B in {4096, 65536, 2^20}; everything before
+    // and after it are 32-byte lines of unmapped methods
+    let filler = "    void unmapped_method_xx() -> u\n"; // 34 bytes
+    let mapped = "    1:1:void m() -> c\n";
+    for b in [4096usize, 65536, 1 << 20] {
+        for d in 0..=mapped.len() {
+            // the mapped line starts at offset b - d
+            let head = "p.A -> a:\n";
+            let mut f = String::with_capacity(b + 4096);
+            f.push_str(head);
+            let target = b - d;
+            while f.len() + filler.len() <= target {
+                f.push_str(filler);
+            }
+            // pad to the exact offset with a header line of the right length ("# " + x.. + "\n")
+            let gap = target - f.len();
+            if gap == 1 {
+                f.push('\n');
+            } else if gap >= 2 {
+                f.push('#');
+                for _ in 0..gap - 2 {
+                    f.push('x');
+                }
+                f.push('\n');
+            }
+            f.push_str(mapped);
+            for _ in 0..40 {
+                f.push_str(filler);
+            }
+            v.push(f.into_bytes());
+        }
+    }
     v
 }
 
@@ -229,7 +262,7 @@ pub fn run(tier: Tier) -> i32 {
         prop: "C19",
         tier,
         level: "model_checking",
-        rule: format!("every file of <= {} lines over the 14-line alphabet (class, field, method with / without usable range, 0:0 method, compiler / compiler_version / min_api headers incl. valueless, non-numeric and 2^32, garbage, blank), each also without its final newline (thorough: also with CRLF); positional families ({} files): k = 0..=52 leading noise / header / class / blank / field lines before the first class+member pair, a class line followed by k lines and then the first member, the first line-mapped method after n in {{0,1,49,50,51,1000,20000}} unmapped ones with error / blank lines interspersed, with and without final newline, headers after everything. Oracle: independent fold over the items of iter(). distinct = distinct metadata tuples", depth, npos),
+        rule: format!("every file of <= {} lines over the 14-line alphabet (class, field, method with / without usable range, 0:0 method, compiler / compiler_version / min_api headers incl. valueless, non-numeric and 2^32, garbage, blank), each also without its final newline (thorough: also with CRLF); positional families ({} files): k = 0..=52 leading noise / header / class / blank / field lines before the first class+member pair, a class line followed by k lines and then the first member, the first line-mapped method after n in {{0,1,49,50,51,1000,20000}} unmapped ones with error / blank lines interspersed, with and without final newline, headers after everything; a single line-mapped method placed so that it straddles a multiple of 4096 / 65536 / 2^20 at every cut position. Oracle: independent fold over the items of iter(). distinct = distinct metadata tuples", depth, npos),
         bounds: json!({"depth": depth, "alphabet": LINES, "positional_files": npos}),
         assumptions: vec!["the statement defines the answers as functions of the record stream; the stream itself is the subject of C05/C06".into()],
         trusted_base: vec!["rustc/std".into(), "the fold in pgmc/src/props/c19.rs".into()],
